@@ -1009,7 +1009,7 @@ class Runner:
             err_old = None
         except Exception as ex:   # noqa
             old, err_old = None, core.exc_enum(ex) + ': ' + str(ex)[:160]
-        self._after_eval(e)
+        self._after_eval(e, evalall=False)
         twin = build(h)
         log = tr.take()
         troots = self._account_subs(log, owner='twin')
@@ -1043,7 +1043,7 @@ class Runner:
         self._stamp_raw()
         return diag
 
-    def _after_eval(self, e):
+    def _after_eval(self, e, evalall=True):
         """model ops mirroring what the evaluation did: shape caches of interpolators, then observations"""
         tr = self.tr
         for rec in e['roots']:
@@ -1052,10 +1052,9 @@ class Runner:
                 if o is not None and hasattr(o, 'alphasets_shape') and s in self.ids:
                     self.mops.append('CallInterp %d %d' % (self.ids[s], shape_id(o.alphasets_shape)))
                     self.expect.append(dict(op='callinterp', serial=s, shape=shape_id(o.alphasets_shape), raw=None))
-            for s in rec['serials']:
-                if s in self.ids:
-                    self.mops.append('Eval %d' % self.ids[s])
-                    self.expect.append(dict(op='eval', serial=s, raw=None))
+        if evalall:
+            self.mops.append('EvalAll')
+            self.expect.append(dict(op='eval', raw=None))
 
     def _fit(self, h, obj, twin):
         import numpy as np
@@ -1250,7 +1249,7 @@ def coq_header(tr):
     """string constants are named once so that the (long) histories contain no string literal"""
     names = sorted(set(tr.table) | {a for c in tr.table.values() for a, _ in c['members']} | {''})
     tr.cname = {n: 'S%d' % i for i, n in enumerate(names)}
-    return COQ_HEADER + ''.join('Definition %s := %s.\n' % (v, core.cstr(k)) for k, v in sorted(tr.cname.items(), key=lambda kv: kv[1]))
+    return COQ_HEADER + ''.join('Notation %s := %s (only parsing).\n' % (v, core.cstr(k)) for k, v in sorted(tr.cname.items(), key=lambda kv: kv[1]))
 
 
 def decode_report(tr, rep):
@@ -1268,6 +1267,8 @@ def decode_report(tr, rep):
                 l.append(('EvSub', a, classes[b] if 0 <= b < len(classes) else '?'))
             elif k == 3:
                 l.append(('EvObs', a, 'true' if b else 'false'))
+            elif k == 5:
+                l.append(('EvAllObs', a, 'true' if b else 'false'))
             else:
                 l.append(('EvShape', a, b))
         out.append((l, raw))
@@ -1296,7 +1297,7 @@ def check_against_model(R, rep):
                 if mod != obs:
                     out.append('step %d (%s): subscription order observed %r, model predicts %r' % (i, mop[:80], obs, mod))
         elif ex['op'] == 'eval':
-            if not any(e[0] == 'EvObs' and e[2] == 'true' for e in evs):
+            if not any(e[0] in ('EvObs', 'EvAllObs') and e[2] == 'true' for e in evs):
                 out.append('step %d (%s): the model does not hold the object to be as fresh: %r' % (i, mop, evs))
         elif ex['op'] == 'callinterp':
             if not any(e[0] == 'EvShape' and e[2] == ex['shape'] for e in evs):
@@ -1394,10 +1395,9 @@ def run(ctx):
         ok, txt = core.prove(ctx)
         if not ok:
             tie = 'proof obligations of props/C11.v no longer check: ' + txt[-1500:]
-        else:
-            rc, out, _ = core.coq_make(['EventsRun.vo'])
-            if rc != 0:
-                tie = 'coq/EventsRun.v does not build: ' + out[-800:]
+        rc, out, _ = core.coq_make(['EventsRun.vo', 'gen/FactsC11.vo'])
+        if rc != 0:
+            tie = tie or ('coq/EventsRun.v / gen/FactsC11.v do not build: ' + out[-800:])
     ctx.trusted += ['harness/props/c11.py:extract (python ast -> FactsC11.v): a syntactic over-approximation of which attributes hold backend tensors, '
                     'which are refreshed by _precompute, which are read at evaluation, and of the statement order in __init__/set_backend',
                     'Python garbage collector and weakref: an object is taken to be collected when a harness-side weak reference to it is dead '
